@@ -65,8 +65,10 @@ impl Monitor for C09 {
             (q, d, p, true)
         } else {
             let pm = match tier {
-                Tier::Quick => 2000,
-                Tier::Thorough => 20_000,
+                // (periods well beyond 4096 slots with budget 1: the trait-default service_time then needs
+                // thousands of refinement rounds for a single unit of demand)
+                Tier::Quick => 20_000,
+                Tier::Thorough => 40_000,
             };
             let p = rng.log_range(1, pm);
             let d = match rng.range(0, 3) {
